@@ -96,6 +96,13 @@ fn run_op(dir: &Path, kind: &str, op: &Value) -> Value {
                 Err(e) => json!({"ok": false, "err": err_msg(&e), "at": "link"}),
             }
         }
+        "read" => {
+            let p = dir.join(op["path"].as_str().unwrap());
+            match std::fs::read_to_string(&p) {
+                Ok(t) => json!({"ok": true, "text": t}),
+                Err(e) => json!({"ok": false, "err": e.to_string()}),
+            }
+        }
         "patch" => {
             let p = dir.join(op["file"].as_str().unwrap());
             let text = match std::fs::read_to_string(&p) {
